@@ -44,6 +44,8 @@ PACKS = {
     "onewaysym": dict(oneway=True, inf=True, sym=True),
     # the (redundant) start class is only the child of a one-way single-child rule: derivable only as the reverse of that rule
     "redpar": dict(redpar=True),
+    # two competing expansion strategies for every class
+    "two": dict(expand2=True),
 }
 # packs whose point is a statistics mechanism always run with statistics; the cycle symmetry needs three letters
 PACK_STATS = {"trim": "s2", "trimsym": "s2", "rename": "s2", "mono": "s1", "trimonly": "s2", "trimrename": "s2", "hidden": "s1"}
